@@ -39,8 +39,8 @@ structure Choice where
 /-- what a directive list is applied to: an element, or (for a directive in
     element form / a text-template block / a stripped element) just content -/
 inductive Target where
-  | elem (tag : Name) (attrs : List (Name × Str)) (kids : List Node)
-  | frag (kids : List Node)
+  | elem (tag : Name) (attrs : List (Name × Str)) (kids : List TNode)
+  | frag (kids : List TNode)
   deriving Repr, Inhabited
 
 def Target.stripped : Target → Target
@@ -58,6 +58,30 @@ structure DSt where
   macros : List DMacro
   ch : Option Choice          -- innermost choose being rendered
   deriving Repr, Inhabited
+
+/-- result of rendering: output events and the state afterwards -/
+abbrev Res (σ : Type) := Except Err (List Event × σ)
+
+/-- render one thing, then another from the state the first left: outputs concatenate -/
+def seq {σ : Type} (r : Res σ) (k : σ → Res σ) : Res σ :=
+  match r with
+  | .error e => .error e
+  | .ok (o1, s1) =>
+    match k s1 with
+    | .error e => .error e
+    | .ok (o2, s2) => .ok (o1 ++ o2, s2)
+
+/-- adjust the final state -/
+def mapSt {σ : Type} (f : σ → σ) (r : Res σ) : Res σ :=
+  match r with
+  | .error e => .error e
+  | .ok (o, s) => .ok (o, f s)
+
+/-- wrap the output between two events -/
+def wrapOut {σ : Type} (a b : Event) (r : Res σ) : Res σ :=
+  match r with
+  | .error e => .error e
+  | .ok (o, s) => .ok (a :: o ++ [b], s)
 
 abbrev DRes := Except Err (List Event × DSt)
 
@@ -89,114 +113,112 @@ def whenMatches (look : Name → Val) (c : Choice) (e : Option Expr) : Except Er
       let v ← eval look e
       pure v.truthy
 
+def stripCond (look : Name → Val) : Option Expr → Except Err Bool
+  | none => .ok true
+  | some e => do
+      let v ← eval look e
+      pure v.truthy
+
 inductive DTask where
-  | nodes (ns : List Node)
+  | nodes (ns : List TNode)
+  | node (n : TNode)
   | dirs (ds : List Dir) (t : Target)
   | loop (v : Name) (items : List Val) (ds : List Dir) (t : Target)
   | xexpr (x : XExpr)
   | binds (bs : List (Name × Expr)) (ds : List Dir) (t : Target)
   deriving Repr, Inhabited
 
+def evalOpt (look : Name → Val) : Option Expr → Except Err Val
+  | some e => eval look e
+  | none => .ok (.atom .none)
+
+/-- the callee of `${f(…)}` -/
+def getDMacro (st : DSt) : Val → Except Err DMacro
+  | .undef => .error .undefined
+  | .macro i => match st.macros[i]? with
+      | some m => .ok m
+      | none => .error .unmodelled
+  | _ => .error .type
+
+def DSt.setMatched (st : DSt) (c : Choice) (m : Bool) : DSt :=
+  { st with ch := some { c with matched := m } }
+
+def DSt.define (st : DSt) (name : Name) (m : DMacro) : DSt :=
+  { st with macros := st.macros ++ [m], glob := st.glob.set name (.macro st.macros.length) }
+
 /-- the documentation semantics.  Fuel bounds the total nesting; `Err.fuel` is
     never a statement about a template. -/
 def doc : Nat → DTask → Env → DSt → DRes
   | 0, _, _, _ => .error .fuel
   | _ + 1, .nodes [], _, st => .ok ([], st)
-  | n + 1, .nodes (nd :: rest), loc, st => do
-      let (o1, s1) ← match nd with
-        | .text s => (.ok ([tx s], st) : DRes)
-        | .expr x => doc n (.xexpr x) loc st
-        | .elem tag attrs dirs kids => doc n (.dirs (sortBy Dir.docIdx dirs) (.elem tag attrs kids)) loc st
-        | .delem d kids => doc n (.dirs [d] (.frag kids)) loc st
-      let (o2, s2) ← doc n (.nodes rest) loc s1
-      pure (o1 ++ o2, s2)
+  | n + 1, .nodes (nd :: rest), loc, st =>
+      seq (doc n (.node nd) loc st) (fun s1 => doc n (.nodes rest) loc s1)
+  | _ + 1, .node (.text s), _, st => .ok ([tx s], st)
+  | n + 1, .node (.expr x), loc, st => doc n (.xexpr x) loc st
+  | n + 1, .node (.elem tag attrs dirs kids), loc, st =>
+      doc n (.dirs (sortBy Dir.docIdx dirs) (.elem tag attrs kids)) loc st
+  | n + 1, .node (.delem d kids), loc, st => doc n (.dirs [d] (.frag kids)) loc st
   | _ + 1, .xexpr (.pure e), loc, st => do
       let v ← eval (dlook loc st) e
       let out ← renderVal v
       pure (out, st)
   | n + 1, .xexpr (.call f args), loc, st => do
-      let fv := dlook loc st f
       let vs ← evalArgs (dlook loc st) args
-      match fv with
-      | .undef => .error .undefined
-      | .macro i =>
-          match st.macros[i]? with
-          | none => .error .unmodelled
-          | some m => do
-              let scope ← bindParams m.params vs
-              doc n (.dirs m.dirs m.target) (scope ++ loc) st
-      | _ => .error .type
-  | n + 1, .dirs [] (.elem tag attrs kids), loc, st => do
-      let (o, s1) ← doc n (.nodes kids) loc st
-      pure (startEv tag attrs :: o ++ [endEv tag], s1)
+      let m ← getDMacro st (dlook loc st f)
+      let scope ← bindParams m.params vs
+      doc n (.dirs m.dirs m.target) (scope ++ loc) st
+  | n + 1, .dirs [] (.elem tag attrs kids), loc, st =>
+      wrapOut (startEv tag attrs) (endEv tag) (doc n (.nodes kids) loc st)
   | n + 1, .dirs [] (.frag kids), loc, st => doc n (.nodes kids) loc st
-  | n + 1, .dirs (d :: ds) t, loc, st =>
-      match d with
-      | .def_ name params =>
-          .ok ([], { st with macros := st.macros ++ [⟨params, ds, t⟩],
-                             glob := st.glob.set name (.macro st.macros.length) })
-      | .when e =>
-          match st.ch with
-          | none => .error .runtime
-          | some c =>
-              if c.matched then .ok ([], st) else do
-                let m ← whenMatches (dlook loc st) c e
-                let st' := { st with ch := some { c with matched := m } }
-                if m then doc n (.dirs ds t) loc st' else pure ([], st')
-      | .otherwise =>
-          match st.ch with
-          | none => .error .runtime
-          | some c =>
-              if c.matched then .ok ([], st)
-              else doc n (.dirs ds t) loc { st with ch := some { c with matched := true } }
-      | .for_ v e => do
-          let it ← eval (dlook loc st) e
-          let items ← iterItems it
-          doc n (.loop v items ds t) loc st
-      | .if_ e => do
-          let v ← eval (dlook loc st) e
-          if v.truthy then doc n (.dirs ds t) loc st else pure ([], st)
-      | .choose e => do
-          let v ← match e with
-            | some e => eval (dlook loc st) e
-            | none => pure (.atom .none)
-          let (o, s1) ← doc n (.dirs ds t) loc { st with ch := some ⟨false, e.isSome, v⟩ }
-          pure (o, { s1 with ch := st.ch })
-      | .with_ bs => doc n (.binds bs ds t) loc st
-      | .replace x => doc n (.xexpr x) loc st       -- the element is replaced: nothing is left for ds
-      | .content x =>
-          match t with
-          | .elem tag attrs _ => doc n (.dirs ds (.elem tag attrs [.expr x])) loc st
-          | .frag _ => doc n (.dirs ds t) loc st
-      | .attrs e =>
-          match t with
-          | .elem tag attrs kids => do
-              let v ← eval (dlook loc st) e
-              let ps ← attrsPairs v
-              doc n (.dirs ds (.elem tag (Genshi.Escape.Attrs.or attrs ps) kids)) loc st
-          | .frag _ => doc n (.dirs ds t) loc st
-      | .strip c =>
-          match t with
-          | .elem _ _ _ => do
-              let b ← match c with
-                | none => pure true
-                | some e => do
-                    let v ← eval (dlook loc st) e
-                    pure v.truthy
-              doc n (.dirs ds (if b then t.stripped else t)) loc st
-          | .frag _ => doc n (.dirs ds t) loc st
+  | _ + 1, .dirs (.def_ name params :: ds) t, _, st => .ok ([], st.define name ⟨params, ds, t⟩)
+  | n + 1, .dirs (.when e :: ds) t, loc, st =>
+      match st.ch with
+      | none => .error .runtime
+      | some c =>
+          if c.matched then .ok ([], st) else do
+            let m ← whenMatches (dlook loc st) c e
+            if m then doc n (.dirs ds t) loc (st.setMatched c true) else pure ([], st.setMatched c false)
+  | n + 1, .dirs (.otherwise :: ds) t, loc, st =>
+      match st.ch with
+      | none => .error .runtime
+      | some c =>
+          if c.matched then .ok ([], st) else doc n (.dirs ds t) loc (st.setMatched c true)
+  | n + 1, .dirs (.for_ v e :: ds) t, loc, st => do
+      let it ← eval (dlook loc st) e
+      let items ← iterItems it
+      doc n (.loop v items ds t) loc st
+  | n + 1, .dirs (.if_ e :: ds) t, loc, st => do
+      let v ← eval (dlook loc st) e
+      if v.truthy then doc n (.dirs ds t) loc st else pure ([], st)
+  | n + 1, .dirs (.choose e :: ds) t, loc, st => do
+      let v ← evalOpt (dlook loc st) e
+      mapSt (fun s1 => { s1 with ch := st.ch })
+        (doc n (.dirs ds t) loc { st with ch := some ⟨false, e.isSome, v⟩ })
+  | n + 1, .dirs (.with_ bs :: ds) t, loc, st => doc n (.binds bs ds t) loc st
+  | n + 1, .dirs (.replace x :: _) _, loc, st =>
+      doc n (.xexpr x) loc st       -- the element is replaced: nothing is left for the rest
+  | n + 1, .dirs (.content x :: ds) (.elem tag attrs _), loc, st =>
+      doc n (.dirs ds (.elem tag attrs [.expr x])) loc st
+  | n + 1, .dirs (.content _ :: ds) (.frag kids), loc, st => doc n (.dirs ds (.frag kids)) loc st
+  | n + 1, .dirs (.attrs e :: ds) (.elem tag attrs kids), loc, st => do
+      let v ← eval (dlook loc st) e
+      let ps ← attrsPairs v
+      doc n (.dirs ds (.elem tag (Genshi.Escape.Attrs.or attrs ps) kids)) loc st
+  | n + 1, .dirs (.attrs _ :: ds) (.frag kids), loc, st => doc n (.dirs ds (.frag kids)) loc st
+  | n + 1, .dirs (.strip c :: ds) (.elem tag attrs kids), loc, st => do
+      let b ← stripCond (dlook loc st) c
+      doc n (.dirs ds (if b then .frag kids else .elem tag attrs kids)) loc st
+  | n + 1, .dirs (.strip _ :: ds) (.frag kids), loc, st => doc n (.dirs ds (.frag kids)) loc st
   | _ + 1, .loop _ [] _ _, _, st => .ok ([], st)
-  | n + 1, .loop v (item :: items) ds t, loc, st => do
-      let (o1, s1) ← doc n (.dirs ds t) ((v, item) :: loc) st
-      let (o2, s2) ← doc n (.loop v items ds t) loc s1
-      pure (o1 ++ o2, s2)
+  | n + 1, .loop v (item :: items) ds t, loc, st =>
+      seq (doc n (.dirs ds t) ((v, item) :: loc) st) (fun s1 => doc n (.loop v items ds t) loc s1)
   | n + 1, .binds [] ds t, loc, st => doc n (.dirs ds t) loc st
   | n + 1, .binds ((x, e) :: bs) ds t, loc, st => do
       let v ← eval (dlook loc st) e
       doc n (.binds bs ds t) ((x, v) :: loc) st
 
 /-- render a whole template over the context data -/
-def docRender (fuel : Nat) (ns : List Node) (data : Env) : Except Err (List Event) := do
+def docRender (fuel : Nat) (ns : List TNode) (data : Env) : Except Err (List Event) := do
   let (o, _) ← doc fuel (.nodes ns) [] ⟨data, [], none⟩
   pure o
 
